@@ -506,8 +506,9 @@ func (pool *TxPool) Content() (map[common.Address]types.Transactions, map[common
 // ContentFrom retrieves the data content of the transaction pool, returning the
 // pending as well as queued transactions of this address, grouped by nonce.
 func (pool *TxPool) ContentFrom(addr common.Address) (types.Transactions, types.Transactions) {
-	pool.mu.RLock()
-	defer pool.mu.RUnlock()
+	// Flatten fills and sorts the list's cache: it needs the write lock, as in Content and Pending.
+	pool.mu.Lock()
+	defer pool.mu.Unlock()
 
 	var pending types.Transactions
 	if list, ok := pool.pending[addr]; ok {
